@@ -5,6 +5,10 @@ For a property P the generator writes (under lean/QV/Gen/, git-ignored):
   P_Stage1.lean an interpreter program that evaluates every obligation's Bool
   P_Ob.lean     one `theorem <name> : <check> = true := by decide +kernel` for every
                 obligation that passed stage 1, plus `proved : List String`
+  P_Sem.lean    for every proved obligation the corollary `<name>_sem` (meaning over ℂ,
+                QV/Proofs/SymSound.lean) and, for product obligations, `<name>_run` (meaning
+                for the simulator model `runCircuit`, QV/Proofs/Bridge.lean); plus the derived
+                corollaries registered with `Table.corollary`
 Obligations that evaluate to false (or are outside the fragment) are *not* emitted as
 theorems; they are returned as broken and go to the failing-input search.
 """
@@ -28,17 +32,59 @@ def sgate(mat, targets, controls=(), dagger=False):
     return s + " }"
 
 
+def layout_ok(n, g):
+    """Python twin of `SGate.wf n` (QV/Proofs/Bridge.lean): targets / controls duplicate-free,
+    below n, disjoint.  Only decides whether a `_run` corollary is emitted; the kernel
+    re-decides `Ob.wf` inside that corollary."""
+    ts = list(g[1])
+    cs = list(g[2]) if len(g) > 2 else []
+    try:
+        qs = [int(q) for q in ts + cs]
+    except (TypeError, ValueError):
+        return False
+    return len(set(qs)) == len(qs) and all(0 <= q < n for q in qs)
+
+
 class Table:
     def __init__(self, prop):
         self.prop = prop
         self.defs = []  # (name, type, term)
         self.obs = []  # (name, bool-expr, meta)
+        self.cors = []  # (kind, name, statement, proof term, names it uses)
+        self.sem_imports = []  # extra imports of P_Sem.lean (for the derived corollaries)
+        self.emit_single = False  # also emit `<name>_single : QV.Ob.SingleStmt o_<name>` (C08, C10)
 
     def define(self, name, typ, term):
         self.defs.append((name, typ, term))
 
     def ob(self, name, expr, **meta):
         self.obs.append((name, expr, meta))
+
+    def corollary(self, name, stmt, proof, needs=(), imports=(), kind="theorem"):
+        """a derived `theorem name : stmt := proof` (or `def`) emitted at the end of P_Sem.lean
+        when every name in `needs` (proved obligations or earlier corollaries) is available.
+        `stmt` / `proof` may be functions of the set of available names."""
+        self.cors.append((kind, name, stmt, proof, tuple(needs)))
+        for m in imports:
+            if m not in self.sem_imports:
+                self.sem_imports.append(m)
+
+    def class_table(self, listname, pred, members):
+        """`def <listname> : List Ob` = the obligations `o_<ob>` of `members` (pairs
+        (ob name, corollary name)) whose corollary was emitted, and
+        `theorem <listname>_ok : ∀ o ∈ <listname>, <pred> o` from those corollaries.
+        `members` is read at emission time (it may still grow after this call)."""
+        def avail(have):
+            return [(o, c) for o, c in members if c in have]
+
+        def okproof(have):
+            t = "QV.forall_mem_nil _"
+            for _, c in reversed(avail(have)):
+                t = f"QV.forall_mem_cons_of {c}\n    ({t})"
+            return t
+
+        self.corollary(listname, "List Ob", lambda have: "[" + ", ".join(f"o_{o}" for o, _ in avail(have)) + "]", kind="def")
+        self.corollary(f"{listname}_ok", f"∀ o ∈ {listname}, {pred} o", okproof, needs=[listname])
 
     def ob_matrix_unitary(self, name, np_, mat, **meta):
         self.define(f"m_{name}", "List (List Ex)", lean_matrix(mat))
@@ -59,7 +105,17 @@ class Table:
             "Ob",
             f"{{ np := {np_}, n := {n},\n      ls := {l},\n      rs := {r},\n      mode := {mode} }}",
         )
-        self.ob(name, f"Ob.check o_{name}", supported=f"Ob.supported o_{name}", sem=f"QV.Ob.check_sound o_{name} {name}", **meta)
+        run = None
+        if all(layout_ok(n, g) for g in list(lhs) + list(rhs)):
+            # simulator-level reading: ∀ θ, ∃ c, ‖c‖ = 1 ∧ (exact → c = 1) ∧ ∀ ψ x,
+            #   runCircuit (ls at θ) ψ x = c * runCircuit (rs at θ) ψ x
+            run = (f"QV.Ob.RunStmt o_{name}", f"QV.Ob.runStmt_of_check o_{name} (by decide +kernel) {name}")
+        self.ob(name, f"Ob.check o_{name}", supported=f"Ob.supported o_{name}", sem=f"QV.Ob.check_sound o_{name} {name}", run=run, **meta)
+        if run and len(rhs) == 1 and self.emit_single:
+            # right side one gate: "ls implements that gate" — the hypothesis of T08_placement /
+            # T08_circuit and of one entry of C10's TablesOK
+            self.corollary(f"{name}_single", f"QV.Ob.SingleStmt o_{name}",
+                           f"QV.Ob.singleStmt_of_check o_{name} (by decide +kernel) {name}", needs=[name])
 
     # ------------------------------------------------------------------
     def emit(self, extra_imports=()):
@@ -117,12 +173,30 @@ class Table:
         # semantic corollaries: the Bool checks lifted to statements about ℂ by the
         # soundness theorems of QV/Proofs/SymSound.lean
         sems = {n: m.get("sem") for n, _, m in self.obs}
-        sem = [f"import QV.Gen.{P}_Ob", "import QV.Proofs.SymSound", f"namespace QV.Gen.{P}", "open QV", ""]
+        runs = {n: m.get("run") for n, _, m in self.obs}
+        sem = [f"import QV.Gen.{P}_Ob", "import QV.Proofs.SymSound", "import QV.Proofs.Bridge"]
+        sem += [f"import {m}" for m in self.sem_imports]
+        sem += ["set_option maxRecDepth 100000", f"namespace QV.Gen.{P}", "open QV", ""]
         self.sem_names = []
         for n in passed:
             if sems.get(n):
                 sem.append(f"theorem {n}_sem : type_of% ({sems[n]}) := {sems[n]}")
                 self.sem_names.append(f"QV.Gen.{P}.{n}_sem")
+            if runs.get(n):
+                stmt, proof = runs[n]
+                sem.append(f"theorem {n}_run : {stmt} := {proof}")
+                self.sem_names.append(f"QV.Gen.{P}.{n}_run")
+        have = set(passed)
+        self.cor_names = []
+        for kind, name, stmt, proof, needs in self.cors:
+            if all(x in have for x in needs):
+                stmt = stmt(have) if callable(stmt) else stmt
+                proof = proof(have) if callable(proof) else proof
+                sem.append(f"{kind} {name} : {stmt} :=\n  {proof}")
+                have.add(name)
+                self.cor_names.append(name)
+                if kind == "theorem":
+                    self.sem_names.append(f"QV.Gen.{P}.{name}")
         sem.append(f"end QV.Gen.{P}\n")
         leanrun.write_if_changed(GEN / f"{P}_Sem.lean", "\n".join(sem))
         return status, passed
